@@ -225,6 +225,10 @@ def correspondence(ctx, corr):
                 corr.disagree('ellipsis', {'got': g, 'want': w}, m, r)
             for g, w in sm[:1]:
                 corr.sample({'op': 'ellipsis', 'got': g, 'want': w})
+    # the same pairs on ONE RuntimeState object whose ELLIPSIS (and other) flags change in place between calls:
+    # with ELLIPSIS switched off again '...' must lose its meaning again (no verdict may be remembered)
+    from . import C05 as _c05
+    _c05.stateful_reuse(ctx, corr)
     # _check_match with the flag on and off
     rng = ctx.sub_rng('check_match')
     pairs = [gen_derived(rng) for _ in range(4000)]
